@@ -428,6 +428,43 @@ def replay_compose(mode, tree, flow):
     return check_one(None, mode, tree, flow_from_json(flow))
 
 
+# ------------------------------------------------------------------------------------------------ repeated calls
+def second_call_case(prog, flow, first_taken):
+    """Source(<list>, *elements) called twice (the first result consumed up to first_taken values, None = fully): with
+    stateless elements BOTH calls are the composition applied to the list.  Returns None or (clause, text)."""
+    exp = reference(prog, copy.deepcopy(flow))
+    data = copy.deepcopy(flow)
+    try:
+        with watchdog(2):
+            s = Source(data, *build(list(prog)))
+            r1 = s()
+            if first_taken is None:
+                got1 = ("OK", consume(r1))
+            else:
+                got1 = None
+                for _ in range(first_taken):
+                    next(r1, None)
+                if hasattr(r1, "close"):
+                    r1.close()
+            got2 = ("OK", consume(s()))
+    except Timeout:
+        return ("non-termination", "a call did not return")
+    except Exception as e:
+        if exp[0] == "EXC" and exp[1] == type(e).__name__:
+            return None
+        return ("raises", "%s raised, expected %s" % (type(e).__name__, _short(exp)))
+    if got1 is not None and not agrees(exp, got1 + (True,)):
+        return ("first-call-differs", "first call gave %s, expected %s" % (_short(got1), _short(exp)))
+    if not agrees(exp, got2 + (True,)):
+        return ("second-call-differs", "second call gave %s, expected %s (first call %s)"
+                % (_short(got2), _short(exp), "consumed fully" if first_taken is None else "abandoned after %d values" % first_taken))
+    return None
+
+
+def replay_second_call(prog, flow, first_taken):
+    return second_call_case(prog, flow_from_json(flow), first_taken) is not None
+
+
 # ------------------------------------------------------------------------------------------------ ill-typed arguments
 class _NoCompute(object):
     def fill(self, v):
@@ -449,7 +486,12 @@ BAD = [("int 5", lambda: 5), ("str", lambda: "abc"), ("None", lambda: None), ("l
        ("dict", lambda: {"a": 1}), ("object()", lambda: object()), ("float", lambda: 1.5),
        ("list of callables", lambda: [plain_tag1, plain_tag1]),
        ("fill without compute", lambda: _NoCompute()), ("run = 5 (not callable)", lambda: _RunNotCallable()),
-       ("fill = 1 (not callable) with compute", lambda: _FillNotCallable())]
+       ("fill = 1 (not callable) with compute", lambda: _FillNotCallable()),
+       # containers of perfectly good elements are not elements themselves (only Split groups elements by tuples)
+       ("tuple holding an accumulator", lambda: (lena.math.Sum(),)),
+       ("list of a callable and an accumulator", lambda: [plain_tag1, FCStub(4)]),
+       ("tuple of run elements", lambda: (lena.flow.Count(), RunStub(3))),
+       ("tuple holding a fill/request element", lambda: (lena.core.FillRequest(lena.math.Sum(), bufsize=1, buffer_input=True, reset=True),))]
 BAD_FIRST = [0, 2, 5, 6]        # of these, what is neither callable nor iterable (bad first element of a Source)
 
 
@@ -754,6 +796,27 @@ def body(R):
                 R.case(True)
                 check_one(R, mode, tree, flow, exp)
 
+    # ---- a Source may be called any number of times
+    stateless = [KNAME.index(n) for n in ("call", "call-mod3", "Variable", "Filter", "Slice1_4", "RunIf", "Reverse")]
+    cflows = [make_flow(n, m) for n, m in ((0, 0), (1, 0), (2, 2), (3, 5), (5, 10))]
+    R.scope("Source(<iterable>, e1..en) called repeatedly: every call is the composition applied to the iterable",
+            "lists of 0..2 stateless elements over %d kinds, %d list flows; first call consumed fully / abandoned after 0 "
+            "or 1 values, then a second call of the same Source object" % (len(stateless), len(cflows)), True)
+    for n in range(0, 3):
+        for prog in itertools.product(stateless, repeat=n):
+            for flow in cflows:
+                for taken in (None, 0, 1):
+                    R.case(bool(flow), {"prog": [KNAME[k] for k in prog], "flow": flow_to_json(flow), "first_taken": taken})
+                    import warnings as _w
+                    with _w.catch_warnings():
+                        _w.simplefilter("ignore")
+                        r = second_call_case(prog, flow, taken)
+                    if r:
+                        R.fail("Source.__call__/repeated-call/%s" % r[0],
+                               "Source(%r, %s): %s" % (flow, [KNAME[k] for k in prog], r[1]),
+                               {"prog": [KNAME[k] for k in prog], "flow": flow_to_json(flow), "first_taken": taken},
+                               {"fn": "replay_second_call", "args": [list(prog), flow_to_json(flow), taken]})
+
     # ---- ill-typed arguments
     R.scope("Sequence.__init__ / Source.__init__ / adapters.Run.__init__ reject ill-typed arguments at construction",
             "%d kinds of non-elements (%s) at every position of every list of 0..2 valid elements over 6 kinds, bare and "
@@ -837,7 +900,8 @@ def body(R):
 
 if __name__ == "__main__":
     R = Run("C01", {"replay_compose": replay_compose, "replay_bad": replay_bad, "replay_run_adapter": replay_run_adapter,
-                    "replay_flatten": replay_flatten, "replay_alter": replay_alter})
+                    "replay_flatten": replay_flatten, "replay_alter": replay_alter,
+                    "replay_second_call": replay_second_call})
     sys.exit(R.main(body, "reference = staged left fold of the elements' own stream transformations over the materialised "
                           "flow (map for callables, fill-all-then-compute for accumulators, the element's run otherwise), "
                           "fresh element instances per evaluation; a case is one (program tree, way of driving, flow) "
